@@ -528,7 +528,7 @@ wait:
 
 func runC03(tier string, args []string) {
 	run := ev.New("C03", tier, "exploration")
-	run.Rule("transfers of PRNG streams (seeded sizes 0 B..256 KiB under faults, 8 MiB clean; seeded write sizes 1 B..256 KiB; simplex, full duplex, request/response with half-close) over chains of 1-4 hops whose links drop (end-to-end loss <= 15 %), duplicate, delay and reorder data datagrams; re-route trials cut the link in use while an equal alternative exists; bridged trials go through a control-service `connect` session; notices trials deliver 'message expired' / 'blocked by firewall' notices about datagrams of the connection to both ends mid-stream (what a datagram expiring or being rejected in transit produces). The reader regenerates the stream and compares offset by offset; EOF placement checked; an independent ping probe decides whether errors/stalls count. distinct_nontrivial = distinct fault/shape classes in which datagrams were actually dropped, duplicated or reordered, plus re-routes that changed the next hop mid-transfer")
+	run.Rule("transfers of PRNG streams (seeded sizes 0 B..256 KiB under faults, 8 MiB clean; seeded write sizes 1 B..256 KiB; simplex, full duplex, request/response with half-close) over chains of 1-4 hops whose links drop (end-to-end loss <= 15 %), duplicate, delay and reorder data datagrams; re-route trials cut the link in use while an equal alternative exists; bridged trials go through a control-service `connect` session; notices trials deliver 'message expired' / 'blocked by firewall' notices about datagrams of the connection to both ends mid-stream (what a datagram expiring or being rejected in transit produces); long-answer trials (child process with the library's QUIC idle timeout lowered to 3 s): one end half-closes and then reads an answer lasting 2.2-3.2 idle periods, dialer and listener in either role. The reader regenerates the stream and compares offset by offset; EOF placement checked; an independent ping probe decides whether errors/stalls count. distinct_nontrivial = distinct fault/shape classes in which datagrams were actually dropped, duplicated or reordered, plus re-routes that changed the next hop mid-transfer")
 	run.Assume("bounded loss = end-to-end 15 % at most (QUIC itself gives up far beyond); a stall/error is judged only if the largest gap between successful pings of the end nodes stayed below 7 s")
 	rng := rand.New(rand.NewSource(run.Seed*67867967 + 3))
 	specs := []*c03Spec{}
@@ -559,6 +559,9 @@ func runC03(tier string, args []string) {
 		}(sp)
 	}
 	wg.Wait()
+	if len(args) == 0 {
+		runC03Long(run, run.Seed)
+	}
 	collectRaces(run, workDir())
 	run.Finish(run.Pick(12, 60))
 }
